@@ -293,6 +293,14 @@ class Oracle:
             last = np.where((s <= teff) & (hist[s] > 0), s, last)
         return np.where(last >= 0, (teff - last) * self.dt, np.nan)
 
+    def _elapsed_real(self, hist, tq):
+        """time since the most recent spike as of the real-valued query time tq (ms; spikes happen at s * dt): a spike at a
+        step later than tq has not happened yet for this observer (NaN when none yet)"""
+        last = np.full(hist[0].shape, -1, dtype=np.int64)
+        for s in range(len(hist)):
+            last = np.where((s * self.dt <= tq + 1e-9) & (hist[s] > 0), s, last)
+        return np.where(last >= 0, np.maximum(tq - last * self.dt, 0.0), np.nan)
+
     # ---- one step ---------------------------------------------------------------------------------------------------------------------
     def step(self, pre, post, delays=None, reward=None, scale=1.0):
         """pre/post: spike tensors of this step; delays: current delay tensor (weight-shaped, ms) or None.
@@ -349,7 +357,11 @@ class Oracle:
             return self._route(_reduce(self.red, dpost_b), _reduce(self.red, dpre_b), a >= 0, b >= 0)
 
         if name == "KernelSTDP":
-            tpre = pre_view(self._elapsed)
+            if h["delayed"]:
+                # the raw presynaptic history as it stood one (real-valued, possibly sub-step) delay ago
+                tpre = self._elapsed_real(self.pre_raw, np.broadcast_to(t * dt - dexp, pe.shape))
+            else:
+                tpre = pre_view(self._elapsed)
             tpost = self._elapsed(self.post, tnow)
             td = tpre - tpost
             self._note_tie(td)
